@@ -11,7 +11,7 @@ from .universe import Universe
 
 ALL_THMS = [
     "ThmGreen", "ThmMomCompl", "ThmLoops", "ThmLoopCorners", "ThmKindShape",
-    "ThmComplRow", "ThmSingletonLaws", "ThmInclExcl", "ThmParity", "ThmSubset", "ThmXorTouch", "ThmBdryIn", "ThmXings", "ThmWindingTable", "ThmContainsSimple",
+    "ThmComplRow", "ThmSingletonLaws", "ThmInclExcl", "ThmParity", "ThmSubset", "ThmXorTouch", "ThmBdryIn", "ThmXings", "ThmWindingTable", "ThmContainsSimple", "ThmGrouping",
 ]
 
 
